@@ -1,6 +1,1495 @@
-//! C06 -- monitor (to be written)
-use crate::fw::ctx;
+//! C06 -- the simulator CLI (`quizx sim`) reports true Born-rule probabilities,
+//! expectation values and samples; answers do not depend on the decomposition method or
+//! the parallel flag; malformed queries are rejected with an error, never a panic.
+//!
+//! Events: every invocation of the REAL binary (env QVMON_CLI, built with feature `verif`)
+//! on a generated `.qasm` file: (stdout, stderr, exit status) and, for sampling runs, the
+//! hook-H4 trace (one JSON line per Bernoulli draw: prefix sampled so far, probability used
+//! for the next bit). Oracle: the independent gate-matrix simulator `oracle::sim`
+//! (state vector in f64) -- |<b|U|0>|^2, <psi|P|psi>, P(x_j = 1 | prefix).
+//!
+//! The QASM text is produced by the harness's own printer (`gen::circuit::print_qasm`);
+//! only gates the repo's QASM front end declares are generated (no `pp`).
+
+use crate::fw::{ctx, par_cases};
+use crate::gen::circuit::{circ_hash, circ_json, gen_circuit, print_qasm, CircParams, PhPool};
+use crate::gen::prng::Rng;
+use crate::oracle::ring::Cf;
+use crate::oracle::sim::{state_float, Circ, G};
+use serde_json::{json, Value};
+use std::collections::BTreeMap;
+use std::ffi::OsString;
+use std::path::{Path, PathBuf};
+use std::process::{Command, Stdio};
+use std::sync::Arc;
+use std::time::{Duration, Instant};
+
+/// per-call wall-clock watchdog; firing is inconclusive
+const CALL_TIMEOUT_S: u64 = 120;
+/// a probability at or below this is "zero" for the non-zero-probability clause
+const ZERO_P: f64 = 1e-9;
+/// below this prefix probability the conditional is numerically ill-conditioned
+const ILL_PREFIX: f64 = 1e-4;
+const TOL_EXACT: f64 = 1e-9;
+const TOL_FLOAT: f64 = 1e-6;
+
+// ------------------------------------------------------------------------------------
+// environment
+// ------------------------------------------------------------------------------------
+
+struct Env {
+    cli: OsString,
+    dir: PathBuf,
+}
+
+// ------------------------------------------------------------------------------------
+// configurations: method x parallel (x optional output file)
+// ------------------------------------------------------------------------------------
+
+#[derive(Clone, Copy, PartialEq, Eq, Debug, PartialOrd, Ord)]
+struct Config {
+    /// 0 = default, 1 = --cats, 2 = --bss
+    method: u8,
+    /// 0 = flag absent, 1 = --parallel 1, 2 = --parallel 4
+    par: u8,
+    /// write to `-o file` instead of stdout
+    out: bool,
+}
+
+impl Config {
+    fn method_name(&self) -> &'static str {
+        ["default", "--cats", "--bss"][self.method as usize]
+    }
+    fn par_name(&self) -> &'static str {
+        ["seq", "--parallel 1", "--parallel 4"][self.par as usize]
+    }
+    fn args(&self) -> Vec<OsString> {
+        let mut a: Vec<OsString> = vec![];
+        match self.method {
+            1 => a.push("--cats".into()),
+            2 => a.push("--bss".into()),
+            _ => {}
+        }
+        match self.par {
+            1 => {
+                a.push("--parallel".into());
+                a.push("1".into());
+            }
+            2 => {
+                a.push("--parallel".into());
+                a.push("4".into());
+            }
+            _ => {}
+        }
+        a
+    }
+    fn label(&self) -> String {
+        format!("{} {}{}", self.method_name(), self.par_name(), if self.out { " -o" } else { "" })
+    }
+}
+
+fn all_configs() -> Vec<Config> {
+    let mut v = vec![];
+    for method in 0..3u8 {
+        for par in 0..3u8 {
+            v.push(Config { method, par, out: false });
+        }
+    }
+    v
+}
+
+/// Describe the failing subset `f` of the configurations `r` that were run, in a way that
+/// depends on the defect and not on the random subset: all / a set of methods / a set of
+/// parallel settings / some.
+fn cfg_desc(f: &[Config], r: &[Config]) -> String {
+    let mut f: Vec<Config> = f.to_vec();
+    f.sort();
+    f.dedup();
+    let mut r: Vec<Config> = r.to_vec();
+    r.sort();
+    r.dedup();
+    if f == r {
+        return "all-configs".into();
+    }
+    let mut ms: Vec<u8> = f.iter().map(|c| c.method).collect();
+    ms.sort();
+    ms.dedup();
+    let by_m: Vec<Config> = r.iter().copied().filter(|c| ms.contains(&c.method)).collect();
+    if by_m == f {
+        let names: Vec<&str> = ms.iter().map(|&m| ["default", "--cats", "--bss"][m as usize]).collect();
+        return format!("methods={}", names.join(","));
+    }
+    let mut ps: Vec<u8> = f.iter().map(|c| c.par).collect();
+    ps.sort();
+    ps.dedup();
+    let by_p: Vec<Config> = r.iter().copied().filter(|c| ps.contains(&c.par)).collect();
+    if by_p == f {
+        let names: Vec<&str> = ps.iter().map(|&p| ["seq", "par1", "par4"][p as usize]).collect();
+        return format!("parallel={}", names.join(","));
+    }
+    if f.iter().all(|c| c.out) {
+        return "only-with--o".into();
+    }
+    "some-configs".into()
+}
+
+// ------------------------------------------------------------------------------------
+// running the binary
+// ------------------------------------------------------------------------------------
+
+#[derive(Debug, Clone)]
+struct CliRes {
+    code: Option<i32>,
+    stdout: String,
+    stderr: String,
+    timed_out: bool,
+    spawn_err: Option<String>,
+    ms: u64,
+}
+
+impl CliRes {
+    fn json(&self) -> Value {
+        json!({"exit_code": self.code, "stdout": clip(&self.stdout), "stderr": clip(&self.stderr), "timed_out": self.timed_out, "ms": self.ms})
+    }
+    fn panicked(&self) -> bool {
+        self.stdout.contains("panicked at") || self.stderr.contains("panicked at")
+    }
+    /// "file.rs:message" of the first panic, digits stripped (stable across line shifts)
+    fn panic_site(&self) -> String {
+        let all = format!("{}\n{}", self.stderr, self.stdout);
+        let mut it = all.lines();
+        while let Some(l) = it.next() {
+            if let Some(pos) = l.find("panicked at ") {
+                let loc = &l[pos + "panicked at ".len()..];
+                let file = loc.split(':').next().unwrap_or("");
+                let file = file.rsplit('/').next().unwrap_or(file);
+                let msg = it.next().unwrap_or("");
+                let m: String = msg.chars().filter(|c| !c.is_ascii_digit()).take(40).collect();
+                return format!("{file}:{}", m.trim());
+            }
+        }
+        "?".into()
+    }
+}
+
+fn clip(s: &str) -> String {
+    if s.len() > 1500 {
+        let mut end = 1500;
+        while !s.is_char_boundary(end) {
+            end -= 1;
+        }
+        format!("{}...[{} bytes]", &s[..end], s.len())
+    } else {
+        s.to_string()
+    }
+}
+
+/// Run `cli args..` with stdout/stderr captured into `<scratch>.out/.err`, environment
+/// variable QUIZX_VERIF_TRACE set to `trace` (or removed), kill after CALL_TIMEOUT_S.
+fn run_cli(env: &Env, args: &[OsString], trace: Option<&Path>, scratch: &Path) -> CliRes {
+    let t0 = Instant::now();
+    let out_p = scratch.with_extension("out");
+    let err_p = scratch.with_extension("err");
+    let fail = |m: String| CliRes { code: None, stdout: String::new(), stderr: String::new(), timed_out: false, spawn_err: Some(m), ms: 0 };
+    let (fo, fe) = match (std::fs::File::create(&out_p), std::fs::File::create(&err_p)) {
+        (Ok(a), Ok(b)) => (a, b),
+        _ => return fail("cannot create capture files".into()),
+    };
+    let mut cmd = Command::new(&env.cli);
+    cmd.args(args).stdin(Stdio::null()).stdout(Stdio::from(fo)).stderr(Stdio::from(fe)).env("RUST_BACKTRACE", "0").current_dir(&env.dir);
+    match trace {
+        Some(p) => {
+            let _ = std::fs::remove_file(p);
+            cmd.env("QUIZX_VERIF_TRACE", p);
+        }
+        None => {
+            cmd.env_remove("QUIZX_VERIF_TRACE");
+        }
+    }
+    let mut child = match cmd.spawn() {
+        Ok(c) => c,
+        Err(e) => return fail(format!("spawn: {e}")),
+    };
+    let deadline = t0 + Duration::from_secs(CALL_TIMEOUT_S);
+    let mut timed_out = false;
+    let mut polls = 0u32;
+    let status = loop {
+        match child.try_wait() {
+            Ok(Some(st)) => break Some(st),
+            Ok(None) => {
+                if Instant::now() >= deadline {
+                    let _ = child.kill();
+                    let _ = child.wait();
+                    timed_out = true;
+                    break None;
+                }
+                polls += 1;
+                std::thread::sleep(Duration::from_micros(if polls < 50 { 300 } else { 2000 }));
+            }
+            Err(e) => {
+                let _ = child.kill();
+                return fail(format!("wait: {e}"));
+            }
+        }
+    };
+    let rd = |p: &Path| String::from_utf8_lossy(&std::fs::read(p).unwrap_or_default()).into_owned();
+    CliRes { code: status.and_then(|s| s.code()), stdout: rd(&out_p), stderr: rd(&err_p), timed_out, spawn_err: None, ms: t0.elapsed().as_millis() as u64 }
+}
+
+// ------------------------------------------------------------------------------------
+// oracle helpers on top of oracle::sim (state vector, qubit 0 = most significant bit)
+// ------------------------------------------------------------------------------------
+
+#[inline]
+fn qbit(i: usize, n: usize, q: usize) -> usize {
+    (i >> (n - 1 - q)) & 1
+}
+
+fn bits_of(i: usize, n: usize) -> String {
+    (0..n).map(|q| if qbit(i, n, q) == 1 { '1' } else { '0' }).collect()
+}
+
+fn index_of(bits: &[bool]) -> usize {
+    bits.iter().fold(0usize, |a, &b| (a << 1) | b as usize)
+}
+
+/// P|ket> for a Pauli string over upper-case I/X/Y/Z
+fn apply_paulis(ket: &[Cf], n: usize, p: &[u8]) -> Vec<Cf> {
+    let mut cur = ket.to_vec();
+    for (q, &ch) in p.iter().enumerate() {
+        let m = 1usize << (n - 1 - q);
+        let mut out = vec![Cf::new(0.0, 0.0); cur.len()];
+        for (i, a) in cur.iter().enumerate() {
+            let b = qbit(i, n, q);
+            match ch {
+                b'I' => out[i] = *a,
+                b'Z' => out[i] = if b == 1 { -*a } else { *a },
+                b'X' => out[i ^ m] = *a,
+                // Y|0> = i|1>, Y|1> = -i|0>
+                b'Y' => out[i ^ m] = *a * if b == 0 { Cf::new(0.0, 1.0) } else { Cf::new(0.0, -1.0) },
+                _ => unreachable!("pauli char"),
+            }
+        }
+        cur = out;
+    }
+    cur
+}
+
+fn hadamard_on(ket: &[Cf], n: usize, q: usize) -> Vec<Cf> {
+    let m = 1usize << (n - 1 - q);
+    let s = std::f64::consts::FRAC_1_SQRT_2;
+    let mut out = ket.to_vec();
+    for i in 0..ket.len() {
+        if i & m == 0 {
+            out[i] = (ket[i] + ket[i | m]) * s;
+            out[i | m] = (ket[i] - ket[i | m]) * s;
+        }
+    }
+    out
+}
+
+fn inner_re(bra: &[Cf], ket: &[Cf]) -> f64 {
+    bra.iter().zip(ket.iter()).map(|(a, b)| (a.conj() * b).re).sum()
+}
+
+struct Orc {
+    n: usize,
+    psi: Vec<Cf>,
+    probs: Vec<f64>,
+}
+
+impl Orc {
+    fn of_state(n: usize, psi: Vec<Cf>) -> Orc {
+        let probs = psi.iter().map(|a| a.norm_sqr()).collect();
+        Orc { n, psi, probs }
+    }
+    fn new(c: &Circ) -> Orc {
+        Orc::of_state(c.n, state_float(c))
+    }
+    fn expect(&self, p: &[u8]) -> f64 {
+        inner_re(&self.psi, &apply_paulis(&self.psi, self.n, p))
+    }
+    /// probability that the first `prefix.len()` qubits read `prefix`
+    fn prefix_prob(&self, prefix: &[bool]) -> f64 {
+        let k = prefix.len();
+        let want = index_of(prefix);
+        self.probs.iter().enumerate().filter(|(i, _)| k == 0 || (i >> (self.n - k)) == want).map(|(_, p)| *p).sum()
+    }
+    /// (P(prefix), P(prefix followed by 1))
+    fn joint(&self, prefix: &[bool]) -> (f64, f64) {
+        let mut p1 = prefix.to_vec();
+        p1.push(true);
+        (self.prefix_prob(prefix), self.prefix_prob(&p1))
+    }
+    fn support(&self) -> usize {
+        self.probs.iter().filter(|p| **p > ZERO_P).count()
+    }
+}
+
+/// Diagnostic models of *known* failure mechanisms, used only to give a mismatch a
+/// discriminating signature (never to decide whether something is a mismatch):
+/// A = SWAP gates treated as a relabelling whose outputs are never put back in order;
+/// idle = the output edge type of a wire without any spider is dropped when a Pauli is
+/// inserted (the |0> on that wire turns into |+> on the ket side only).
+struct Models {
+    has_swap: bool,
+    /// state of the circuit with swaps as pure relabelling (outputs in wire order)
+    relabelled: Orc,
+    /// wires without any non-swap gate, in wire numbering of the relabelled circuit
+    bare_wire: Vec<bool>,
+    /// qubit q ends on wire `final_map[q]`
+    final_map: Vec<usize>,
+}
+
+fn remap_gate(g: &G, m: &[usize]) -> G {
+    match g {
+        G::Rz(q, p) => G::Rz(m[*q], *p),
+        G::Rx(q, p) => G::Rx(m[*q], *p),
+        G::X(q) => G::X(m[*q]),
+        G::Z(q) => G::Z(m[*q]),
+        G::S(q) => G::S(m[*q]),
+        G::T(q) => G::T(m[*q]),
+        G::Sdg(q) => G::Sdg(m[*q]),
+        G::Tdg(q) => G::Tdg(m[*q]),
+        G::H(q) => G::H(m[*q]),
+        G::Cx(a, b) => G::Cx(m[*a], m[*b]),
+        G::Cz(a, b) => G::Cz(m[*a], m[*b]),
+        G::Xcx(a, b) => G::Xcx(m[*a], m[*b]),
+        G::Swap(a, b) => G::Swap(m[*a], m[*b]),
+        G::Ccz(a, b, c) => G::Ccz(m[*a], m[*b], m[*c]),
+        G::Ccx(a, b, c) => G::Ccx(m[*a], m[*b], m[*c]),
+        G::Pp(qs, p) => G::Pp(qs.iter().map(|q| m[*q]).collect(), *p),
+        G::InitAnc(q) => G::InitAnc(m[*q]),
+        G::PostSel(q) => G::PostSel(m[*q]),
+        G::MeasureD(q, v) => G::MeasureD(m[*q], v.clone()),
+        G::MeasureR(q, v) => G::MeasureR(m[*q], v.clone()),
+    }
+}
+
+impl Models {
+    fn new(c: &Circ) -> Models {
+        let mut map: Vec<usize> = (0..c.n).collect();
+        let mut gates = vec![];
+        let mut has_swap = false;
+        for g in &c.gates {
+            if let G::Swap(a, b) = g {
+                map.swap(*a, *b);
+                has_swap = true;
+            } else {
+                gates.push(remap_gate(g, &map));
+            }
+        }
+        let mut bare = vec![true; c.n];
+        for g in &gates {
+            for q in g.qubits() {
+                bare[q] = false;
+            }
+        }
+        let rc = Circ { n: c.n, gates };
+        Models { has_swap, relabelled: Orc::new(&rc), bare_wire: bare, final_map: map }
+    }
+    fn has_bare_wire(&self) -> bool {
+        self.bare_wire.iter().any(|b| *b)
+    }
+    /// expectation with the ket's bare qubits (those carrying a non-identity Pauli) in |+>
+    fn expect_idle(orc: &Orc, bare_q: &[bool], p: &[u8]) -> f64 {
+        let mut ket = orc.psi.clone();
+        for q in 0..orc.n {
+            if bare_q[q] && p[q] != b'I' {
+                ket = hadamard_on(&ket, orc.n, q);
+            }
+        }
+        inner_re(&orc.psi, &apply_paulis(&ket, orc.n, p))
+    }
+    /// which qubits (true numbering) sit on a bare wire
+    fn bare_qubits(&self) -> Vec<bool> {
+        (0..self.final_map.len()).map(|q| self.bare_wire[self.final_map[q]]).collect()
+    }
+}
+
+fn self_test() -> Result<(), String> {
+    let bell = Circ { n: 2, gates: vec![G::H(0), G::Cx(0, 1)] };
+    let o = Orc::new(&bell);
+    let cl = |a: f64, b: f64| (a - b).abs() < 1e-12;
+    if !(cl(o.probs[0], 0.5) && cl(o.probs[3], 0.5) && cl(o.probs[1], 0.0)) {
+        return Err("bell probabilities".into());
+    }
+    for (p, v) in [("ZZ", 1.0), ("XX", 1.0), ("YY", -1.0), ("ZI", 0.0), ("XY", 0.0), ("II", 1.0)] {
+        if !cl(o.expect(p.as_bytes()), v) {
+            return Err(format!("bell <{p}>"));
+        }
+    }
+    // S H |0> = (|0> + i|1>)/sqrt2 is the +1 eigenstate of Y
+    let y = Orc::new(&Circ { n: 1, gates: vec![G::H(0), G::S(0)] });
+    if !cl(y.expect(b"Y"), 1.0) || !cl(y.expect(b"X"), 0.0) {
+        return Err("Y eigenstate".into());
+    }
+    let (pp, p1) = o.joint(&[true]);
+    if !(cl(pp, 0.5) && cl(p1, 0.5)) {
+        return Err("bell conditional".into());
+    }
+    // qubit order: x on qubit 0 of 3 gives "100"
+    let x = Orc::new(&Circ { n: 3, gates: vec![G::X(0)] });
+    if !cl(x.probs[0b100], 1.0) || bits_of(0b100, 3) != "100" || !cl(x.expect(b"ZII"), -1.0) || !cl(x.expect(b"IZI"), 1.0) {
+        return Err("qubit order".into());
+    }
+    // swap relabelling model: x q0; swap q0,q1 -> true "01", relabelled "10"
+    let s = Circ { n: 2, gates: vec![G::X(0), G::Swap(0, 1)] };
+    let m = Models::new(&s);
+    if !cl(Orc::new(&s).probs[0b01], 1.0) || !cl(m.relabelled.probs[0b10], 1.0) || m.bare_qubits() != vec![true, false] {
+        return Err("swap model".into());
+    }
+    // idle model: <Z> on an idle qubit reads 1/sqrt2
+    let i = Circ { n: 2, gates: vec![G::H(0)] };
+    let mi = Models::new(&i);
+    let oi = Orc::new(&i);
+    if !cl(Models::expect_idle(&oi, &mi.bare_qubits(), b"IZ"), std::f64::consts::FRAC_1_SQRT_2) || !cl(oi.expect(b"IZ"), 1.0) {
+        return Err("idle model".into());
+    }
+    let a = Config { method: 2, par: 0, out: false };
+    let b = Config { method: 2, par: 2, out: false };
+    let c = Config { method: 0, par: 2, out: false };
+    if cfg_desc(&[a, b], &[a, b, c]) != "methods=--bss" || cfg_desc(&[b, c], &[a, b, c]) != "parallel=par4" || cfg_desc(&[a, b, c], &[c, b, a]) != "all-configs" {
+        return Err("cfg_desc".into());
+    }
+    Ok(())
+}
+
+// ------------------------------------------------------------------------------------
+// workload
+// ------------------------------------------------------------------------------------
+
+fn t_cost(g: &G) -> usize {
+    match g {
+        G::T(_) | G::Tdg(_) => 1,
+        G::Rz(_, p) | G::Rx(_, p) | G::Pp(_, p) => {
+            if p.1 == 1 || p.1 == 2 {
+                0
+            } else {
+                1
+            }
+        }
+        G::Ccz(..) | G::Ccx(..) => 7,
+        _ => 0,
+    }
+}
+
+/// unitary circuit over the gate set the QASM front end declares, non-Clifford budget
+/// <= 6 (or one ccz/ccx plus <= 2)
+fn gen_c06(r: &mut Rng, pool: PhPool, max_q: usize, max_d: usize) -> Circ {
+    let mut p = CircParams::unitary(max_q, max_d, pool);
+    p.pp = false;
+    p.ccz = r.chance(0.12);
+    let budget = if p.ccz { 9 } else { 6 };
+    let c = gen_circuit(r, &p);
+    let mut used = 0;
+    let mut gates = vec![];
+    for g in c.gates {
+        let k = t_cost(&g);
+        if used + k <= budget {
+            used += k;
+            gates.push(g);
+        }
+    }
+    Circ { n: c.n, gates }
+}
+
+fn ph(n: i64, d: i64) -> (i64, i64) {
+    (n, d)
+}
+
+/// hand-written circuits aimed at the places the property names
+fn special_circuits() -> Vec<(&'static str, Circ)> {
+    vec![
+        ("bell", Circ { n: 2, gates: vec![G::H(0), G::Cx(0, 1)] }),
+        ("ghz3", Circ { n: 3, gates: vec![G::H(0), G::Cx(0, 1), G::Cx(1, 2)] }),
+        ("idle-q1", Circ { n: 2, gates: vec![G::H(0)] }),
+        ("idle-q0", Circ { n: 2, gates: vec![G::X(1)] }),
+        ("h-only", Circ { n: 1, gates: vec![G::H(0)] }),
+        ("hth", Circ { n: 1, gates: vec![G::H(0), G::T(0), G::H(0)] }),
+        ("x-swap", Circ { n: 2, gates: vec![G::X(0), G::Swap(0, 1)] }),
+        ("swap-mid", Circ { n: 3, gates: vec![G::H(0), G::Swap(0, 2), G::Cx(2, 1), G::T(1), G::H(1)] }),
+        ("swap-chain", Circ { n: 3, gates: vec![G::X(0), G::Swap(0, 1), G::Swap(1, 2), G::H(0)] }),
+        ("zero-gates", Circ { n: 2, gates: vec![] }),
+        ("skewed", Circ { n: 2, gates: vec![G::Rx(0, ph(1, 4)), G::Cx(0, 1), G::Rx(1, ph(1, 4))] }),
+        ("ccz", Circ { n: 3, gates: vec![G::H(0), G::H(1), G::H(2), G::Ccz(0, 1, 2), G::H(0), G::H(1), G::H(2)] }),
+        ("idle-middle", Circ { n: 3, gates: vec![G::H(0), G::Cx(0, 2), G::T(2), G::H(2)] }),
+        ("all-idle-but-one", Circ { n: 4, gates: vec![G::H(3), G::T(3), G::H(3)] }),
+        ("float-1q", Circ { n: 1, gates: vec![G::Rx(0, ph(2, 7))] }),
+        ("float-2q", Circ { n: 2, gates: vec![G::Rx(0, ph(1, 3)), G::Cx(0, 1), G::Rx(1, ph(3, 5)), G::Rz(1, ph(1, 8)), G::H(1)] }),
+        ("xcx", Circ { n: 2, gates: vec![G::H(1), G::T(1), G::Xcx(0, 1), G::H(0)] }),
+        ("toffoli", Circ { n: 3, gates: vec![G::H(0), G::X(1), G::Ccx(0, 1, 2)] }),
+    ]
+}
+
+#[derive(Clone, Debug)]
+enum Query {
+    /// `-a <bits>`
+    Amp(String),
+    /// `-e <paulis>`
+    Exp(String),
+    /// `-s k`; None = no task flag at all (documented default: one shot)
+    Shots(Option<usize>),
+}
+
+impl Query {
+    fn task(&self) -> &'static str {
+        match self {
+            Query::Amp(_) => "-a",
+            Query::Exp(_) => "-e",
+            Query::Shots(_) => "-s",
+        }
+    }
+    fn args(&self) -> Vec<OsString> {
+        match self {
+            Query::Amp(s) => vec!["-a".into(), s.into()],
+            Query::Exp(s) => vec!["-e".into(), s.into()],
+            Query::Shots(Some(k)) => vec!["-s".into(), k.to_string().into()],
+            Query::Shots(None) => vec![],
+        }
+    }
+    fn text(&self) -> String {
+        match self {
+            Query::Amp(s) => format!("-a {s}"),
+            Query::Exp(s) => format!("-e {s}"),
+            Query::Shots(Some(k)) => format!("-s {k}"),
+            Query::Shots(None) => "(no task flag)".into(),
+        }
+    }
+}
+
+fn rand_pauli_string(r: &mut Rng, n: usize, lower: f64) -> String {
+    (0..n)
+        .map(|_| {
+            let c = *r.pick(&['I', 'X', 'Y', 'Z']);
+            if r.chance(lower) {
+                c.to_ascii_lowercase()
+            } else {
+                c
+            }
+        })
+        .collect()
+}
+
+fn build_queries(r: &mut Rng, orc: &Orc, models: &Models, max_shots: usize) -> Vec<(Query, bool)> {
+    // (query, run on all nine configurations?)
+    let n = orc.n;
+    let mut qs: Vec<(Query, bool)> = vec![];
+    // amplitudes: most likely string, two random strings, both broadcast forms
+    let best = orc.probs.iter().enumerate().max_by(|a, b| a.1.partial_cmp(b.1).unwrap()).map(|x| x.0).unwrap_or(0);
+    qs.push((Query::Amp(bits_of(best, n)), true));
+    for _ in 0..2 {
+        qs.push((Query::Amp(bits_of(r.below(1 << n), n)), false));
+    }
+    qs.push((Query::Amp("0".into()), false));
+    qs.push((Query::Amp("1".into()), false));
+    // expectation values
+    // the string (out of 12 random ones) whose expectation is furthest from 0 and +-1
+    let mut best_p = rand_pauli_string(r, n, 0.0);
+    let mut best_score = -1.0;
+    for _ in 0..12 {
+        let cand = rand_pauli_string(r, n, 0.0);
+        let e = orc.expect(cand.as_bytes()).abs();
+        let score = e.min(1.0 - e);
+        if score > best_score + 1e-9 {
+            best_score = score;
+            best_p = cand;
+        }
+    }
+    qs.push((Query::Exp(best_p), true));
+    qs.push((Query::Exp(rand_pauli_string(r, n, 0.0)), false));
+    qs.push((Query::Exp(rand_pauli_string(r, n, 0.5)), false));
+    qs.push((Query::Exp(rand_pauli_string(r, n, 1.0)), false));
+    // diagonal string
+    let diag: String = (0..n).map(|_| if r.chance(0.6) { 'Z' } else { 'I' }).collect();
+    qs.push((Query::Exp(diag), false));
+    // a single Pauli on one qubit, preferring a qubit without gates
+    let bare = models.bare_qubits();
+    let cand: Vec<usize> = (0..n).filter(|q| bare[*q]).collect();
+    let q = if !cand.is_empty() && r.chance(0.7) { *r.pick(&cand) } else { r.below(n) };
+    let pch = *r.pick(&['X', 'Y', 'Z']);
+    let single: String = (0..n).map(|i| if i == q { pch } else { 'I' }).collect();
+    qs.push((Query::Exp(single), false));
+    // broadcast
+    let b1 = *r.pick(&["X", "Y", "Z", "I"]);
+    let b2 = *r.pick(&["x", "y", "z", "i"]);
+    qs.push((Query::Exp(b1.into()), false));
+    qs.push((Query::Exp(b2.into()), false));
+    // sampling
+    qs.push((Query::Shots(Some(1 + r.below(max_shots))), true));
+    match r.below(4) {
+        0 => qs.push((Query::Shots(None), false)),
+        1 => qs.push((Query::Shots(Some(0)), false)),
+        _ => {}
+    }
+    qs
+}
+
+// ------------------------------------------------------------------------------------
+// judging
+// ------------------------------------------------------------------------------------
+
+/// A problem found in one call: (class, discriminating condition, detail)
+type Problem = (String, String, Value);
+
+/// classify a run that should have produced an answer but did not
+fn failure_of(res: &CliRes) -> Option<Problem> {
+    if res.panicked() {
+        return Some(("panic".into(), res.panic_site(), json!({"run": res.json()})));
+    }
+    match res.code {
+        Some(0) => None,
+        Some(c) => {
+            let first: String = res.stderr.lines().next().unwrap_or("").chars().filter(|c| !c.is_ascii_digit()).take(40).collect();
+            Some(("valid-query-rejected".into(), format!("exit {c}:{}", first.trim()), json!({"run": res.json()})))
+        }
+        None => Some(("crash".into(), "killed-by-signal".into(), json!({"run": res.json()}))),
+    }
+}
+
+/// Diagnostic model: is `d` (an error) a power of two or a power of two over sqrt2? That is
+/// what one coefficient of a Z[omega] scalar contributes when its 64-bit mantissa is read
+/// as a signed 64-bit integer (the value moves by 2^k with 2^(k-1) <= |v| < 2^k).
+fn pow2_offset(d: f64) -> bool {
+    fn one(d: f64) -> bool {
+        let d = d.abs();
+        if !(d.is_finite() && d > 1e-12) {
+            return false;
+        }
+        let a = d.log2();
+        let b = (d * std::f64::consts::SQRT_2).log2();
+        (a - a.round()).abs() < 1e-6 || (b - b.round()).abs() < 1e-6
+    }
+    if one(d) {
+        return true;
+    }
+    // two coefficients moved at once
+    for k in -20..=2 {
+        for scale in [1.0, std::f64::consts::FRAC_1_SQRT_2] {
+            let t = 2f64.powi(k) * scale;
+            if one(d.abs() - t) || one(d.abs() + t) {
+                return true;
+            }
+        }
+    }
+    false
+}
+
+fn diagnose_value(task: &str, q: &str, observed: f64, expected: f64, circ: &Circ, orc: &Orc, models: &Models, tol: f64) -> String {
+    if circ.gates.is_empty() {
+        return "zero-gate-circuit".into();
+    }
+    let n = orc.n;
+    let near = |v: f64| (v - observed).abs() <= tol.max(1e-7);
+    let pow2 = pow2_offset(observed - expected) && !circ.is_pi4();
+    let pool = if circ.is_pi4() { "clifford+t" } else { "other-phases" };
+    if pow2 && task == "-a" {
+        return "off-by-power-of-two(64-bit-mantissa-read-as-signed)".into();
+    }
+    match task {
+        "-a" => {
+            let bits: Vec<bool> = if q.len() == 1 { vec![q == "1"; n] } else { q.chars().map(|c| c == '1').collect() };
+            if models.has_swap && near(models.relabelled.probs[index_of(&bits)]) {
+                return "swap:outputs-not-reordered".into();
+            }
+            if near(orc.psi[index_of(&bits)].norm()) {
+                return "amplitude-modulus-not-squared".into();
+            }
+        }
+        "-e" => {
+            let up = q.to_ascii_uppercase();
+            let p: Vec<u8> = if up.len() == 1 { vec![up.as_bytes()[0]; n] } else { up.as_bytes().to_vec() };
+            let bq = models.bare_qubits();
+            let hits_bare = (0..n).any(|i| bq[i] && p[i] != b'I');
+            if hits_bare && near(Models::expect_idle(orc, &bq, &p)) {
+                return "pauli-on-gate-free-qubit:output-edge-type-dropped".into();
+            }
+            if pow2 {
+                return "off-by-power-of-two(64-bit-mantissa-read-as-signed)".into();
+            }
+            if models.has_swap && near(models.relabelled.expect(&p)) {
+                return "swap:outputs-not-reordered".into();
+            }
+            if models.has_swap && (0..n).any(|w| models.bare_wire[w] && p[w] != b'I') && near(Models::expect_idle(&models.relabelled, &models.bare_wire, &p)) {
+                return "swap:outputs-not-reordered+edge-type-dropped".into();
+            }
+            if hits_bare {
+                return format!("pauli-on-gate-free-qubit:other({pool})");
+            }
+        }
+        _ => {}
+    }
+    if models.has_swap {
+        format!("unexplained({pool},circuit-has-swap)")
+    } else {
+        format!("unexplained({pool})")
+    }
+}
+
+fn parse_trace(txt: &str) -> Result<Vec<(String, f64)>, String> {
+    let mut out = vec![];
+    for l in txt.lines() {
+        if l.trim().is_empty() {
+            continue;
+        }
+        // {"prefix":"01","p":1.25e-1}
+        let a = l.find("\"prefix\":\"").ok_or_else(|| format!("bad trace line {l}"))? + 10;
+        let b = a + l[a..].find('"').ok_or_else(|| format!("bad trace line {l}"))?;
+        let prefix = l[a..b].to_string();
+        let c = l.find("\"p\":").ok_or_else(|| format!("bad trace line {l}"))? + 4;
+        let d = l.rfind('}').ok_or_else(|| format!("bad trace line {l}"))?;
+        let p: f64 = l[c..d].trim().parse().map_err(|_| format!("bad trace number in {l}"))?;
+        out.push((prefix, p));
+    }
+    Ok(out)
+}
+
+/// judge the text printed by a sampling run (and its trace)
+fn judge_shots(k: usize, text: &str, trace: Option<&str>, circ: &Circ, orc: &Orc, models: &Models, tol: f64) -> Vec<Problem> {
+    let c = ctx();
+    let n = orc.n;
+    let mut probs: Vec<Problem> = vec![];
+    let body = text.strip_suffix('\n').unwrap_or(text);
+    let lines: Vec<&str> = if k == 0 { vec![] } else { body.split('\n').collect() };
+    let empty_circ = circ.gates.is_empty();
+    let feat = |s: &str| if empty_circ { "zero-gate-circuit".to_string() } else { s.to_string() };
+    if k == 0 {
+        if !body.trim().is_empty() {
+            probs.push(("zero-shots-printed-something".into(), feat(""), json!({"stdout": clip(text)})));
+        }
+        c.count("shots0_runs", 1);
+    } else if lines.len() != k {
+        probs.push(("wrong-number-of-samples".into(), feat(""), json!({"expected": k, "observed": lines.len(), "stdout": clip(text)})));
+    }
+    let mut well_formed = true;
+    for (s, l) in lines.iter().enumerate() {
+        if l.len() != n || !l.bytes().all(|b| b == b'0' || b == b'1') {
+            probs.push(("malformed-sample".into(), feat(""), json!({"shot": s, "line": l, "expected_length": n})));
+            well_formed = false;
+            continue;
+        }
+        let bits: Vec<bool> = l.bytes().map(|b| b == b'1').collect();
+        let p = orc.probs[index_of(&bits)];
+        c.count("samples_checked", 1);
+        if p <= ZERO_P {
+            let d = if models.has_swap && models.relabelled.probs[index_of(&bits)] > ZERO_P { "swap:outputs-not-reordered" } else { "" };
+            probs.push(("zero-probability-sample".into(), feat(d), json!({"shot": s, "sample": l, "born_probability": p})));
+        }
+    }
+    let Some(tr) = trace else {
+        return probs;
+    };
+    let draws = match parse_trace(tr) {
+        Ok(d) => d,
+        Err(e) => {
+            c.harness_error(&format!("C06: unreadable H4 trace: {e}"));
+            return probs;
+        }
+    };
+    if !well_formed || lines.len() != k {
+        return probs;
+    }
+    if draws.len() != k * n {
+        probs.push(("draw-count".into(), feat(""), json!({"expected_draws": k * n, "traced_draws": draws.len()})));
+        return probs;
+    }
+    for s in 0..k {
+        for j in 0..n {
+            let (prefix, p_used) = &draws[s * n + j];
+            if prefix != &lines[s][..j] {
+                probs.push((
+                    "trace-inconsistent-with-printed-sample".into(),
+                    feat(""),
+                    json!({"shot": s, "draw": j, "traced_prefix": prefix, "printed": lines[s]}),
+                ));
+                continue;
+            }
+            let pre: Vec<bool> = prefix.bytes().map(|b| b == b'1').collect();
+            let (pp, p1) = orc.joint(&pre);
+            c.count("draws_traced", 1);
+            if pp <= ZERO_P {
+                // the prefix itself has zero probability: reported as zero-probability-sample
+                c.count("draws_skipped_zero_probability_prefix", 1);
+                continue;
+            }
+            let cond = p1 / pp;
+            let ok = p_used.is_finite() && (p_used - cond).abs() <= tol;
+            if ok {
+                c.count("draws_checked_ok", 1);
+                if cond > 1e-6 && cond < 1.0 - 1e-6 {
+                    c.count("draws_with_fractional_conditional", 1);
+                }
+                if (p1 - cond).abs() > 1e-6 {
+                    c.count("draws_where_joint_differs_from_conditional", 1);
+                }
+                c.maximum("max_draw_error_x1e15", ((p_used - cond).abs() * 1e15) as u64);
+                continue;
+            }
+            if pp < ILL_PREFIX && p_used.is_finite() && (p_used - cond).abs() <= tol / pp {
+                c.inconclusive("ill-conditioned-prefix", json!({"prefix": prefix, "prefix_probability": pp, "p_used": p_used, "conditional": cond}));
+                continue;
+            }
+            let d = if !p_used.is_finite() {
+                "not-finite"
+            } else if (p_used - p1).abs() <= tol && (p1 - cond).abs() > tol {
+                "joint-instead-of-conditional"
+            } else if !circ.is_pi4() && pow2_offset(p_used * pp - p1) {
+                "joint-off-by-power-of-two(64-bit-mantissa-read-as-signed)"
+            } else if !circ.is_pi4() && (*p_used == 0.0 || *p_used == 1.0) {
+                // a joint that is negative or larger than the prefix probability gets clamped
+                "clamped-to-0-or-1(other-phases)"
+            } else if models.has_swap && {
+                let (a, b) = models.relabelled.joint(&pre);
+                a > ZERO_P && (p_used - b / a).abs() <= tol
+            } {
+                "swap:outputs-not-reordered"
+            } else if models.has_swap {
+                if circ.is_pi4() { "unexplained(clifford+t,circuit-has-swap)" } else { "unexplained(other-phases,circuit-has-swap)" }
+            } else if circ.is_pi4() {
+                "unexplained(clifford+t)"
+            } else {
+                "unexplained(other-phases)"
+            };
+            probs.push((
+                "draw-probability".into(),
+                feat(d),
+                json!({"shot": s, "draw": j, "prefix": prefix, "p_used": p_used, "expected_conditional": cond, "prefix_probability": pp, "joint_prefix_then_1": p1}),
+            ));
+            // the sampler divides by the running product of the probabilities it used, so
+            // the later draws of this shot are consequences of this one
+            c.count("draws_skipped_after_a_bad_draw_in_the_same_shot", (n - 1 - j) as u64);
+            break;
+        }
+    }
+    // a zero-probability sample is the consequence of a wrong draw probability if one was traced
+    let first_bad: Option<String> = probs.iter().find(|p| p.0 == "draw-probability").map(|p| p.1.clone());
+    for p in probs.iter_mut() {
+        if p.0 == "zero-probability-sample" {
+            match &first_bad {
+                Some(d) => p.1 = format!("after-bad-draw:{d}"),
+                None if p.1.is_empty() => p.1 = "all-traced-draws-correct".to_string(),
+                None => {}
+            }
+        }
+    }
+    probs
+}
+
+fn circuit_case(env: &Env, family: &'static str, index: u64, r: &mut Rng, circ: Circ, label: &str) {
+    let c = ctx();
+    let n = circ.n;
+    let orc = Orc::new(&circ);
+    let models = Models::new(&circ);
+    let exact = circ.is_pi4();
+    let tol = if exact { TOL_EXACT } else { TOL_FLOAT };
+    let qasm = print_qasm(&circ);
+    let stem = env.dir.join(format!("{family}-{index}"));
+    let file = stem.with_extension("qasm");
+    if let Err(e) = std::fs::write(&file, &qasm) {
+        c.harness_error(&format!("C06: cannot write {}: {e}", file.display()));
+        return;
+    }
+    let trace_p = stem.with_extension("trace");
+    let outfile_p = stem.with_extension("result");
+    let max_shots = c.tier.pick(4usize, 8usize);
+    let queries = build_queries(r, &orc, &models, max_shots);
+    let out_query = r.below(queries.len());
+    let configs = all_configs();
+    let tcount: usize = circ.gates.iter().map(t_cost).sum();
+    c.maximum("max_qubits", n as u64);
+    c.maximum("max_t_cost", tcount as u64);
+    c.count(if exact { "circuits:clifford+t" } else { "circuits:other-phases" }, 1);
+    if models.has_swap {
+        c.count("circuits:with-swap", 1);
+    }
+    if models.has_bare_wire() {
+        c.count("circuits:with-gate-free-qubit", 1);
+    }
+    let mut aborted = false;
+    let mut calls = 0u64;
+    'queries: for (qi, (query, full)) in queries.iter().enumerate() {
+        // configurations for this query
+        let mut run_cfgs: Vec<Config> = if *full {
+            configs.clone()
+        } else {
+            // three configurations with three different methods, random parallel settings
+            let mut v = vec![];
+            for m in 0..3u8 {
+                v.push(Config { method: m, par: r.below(3) as u8, out: false });
+            }
+            v
+        };
+        if qi == out_query {
+            run_cfgs.push(Config { method: r.below(3) as u8, par: r.below(3) as u8, out: true });
+        }
+        let expected: Option<f64> = match query {
+            Query::Amp(s) => {
+                let bits: Vec<bool> = if s.len() == 1 { vec![s == "1"; n] } else { s.chars().map(|ch| ch == '1').collect() };
+                Some(orc.probs[index_of(&bits)])
+            }
+            Query::Exp(s) => {
+                let up = s.to_ascii_uppercase();
+                let p: Vec<u8> = if up.len() == 1 { vec![up.as_bytes()[0]; n] } else { up.as_bytes().to_vec() };
+                Some(orc.expect(&p))
+            }
+            Query::Shots(_) => None,
+        };
+        // (config, problems)
+        let mut found: Vec<(Config, Problem)> = vec![];
+        let mut observed: Vec<(String, Value)> = vec![];
+        for cfg in &run_cfgs {
+            let mut args: Vec<OsString> = vec!["sim".into(), file.clone().into()];
+            args.extend(cfg.args());
+            args.extend(query.args());
+            if cfg.out {
+                let _ = std::fs::remove_file(&outfile_p);
+                args.push("-o".into());
+                args.push(outfile_p.clone().into());
+            }
+            let tracing = matches!(query, Query::Shots(_));
+            let res = run_cli(env, &args, if tracing { Some(&trace_p) } else { None }, &stem);
+            calls += 1;
+            c.count(&format!("cli:{}:{}:{}", query.task(), cfg.method_name(), cfg.par_name()), 1);
+            if cfg.out {
+                c.count("cli:with--o", 1);
+            }
+            c.maximum("max_call_ms", res.ms);
+            if let Some(e) = &res.spawn_err {
+                c.harness_error(&format!("C06: cannot run the CLI: {e}"));
+                return;
+            }
+            if res.timed_out {
+                c.inconclusive("cli-timeout", json!({"family": family, "index": index, "query": query.text(), "config": cfg.label(), "seconds": CALL_TIMEOUT_S, "qasm": qasm}));
+                aborted = true;
+                break 'queries;
+            }
+            if let Some(p) = failure_of(&res) {
+                observed.push((cfg.label(), json!(format!("{}:{}", p.0, p.1))));
+                found.push((*cfg, p));
+                continue;
+            }
+            // the answer text
+            let text = if cfg.out {
+                if !res.stdout.trim().is_empty() {
+                    found.push((*cfg, ("out-file".into(), "stdout-not-empty".into(), json!({"run": res.json()}))));
+                }
+                match std::fs::read_to_string(&outfile_p) {
+                    Ok(t) => t,
+                    Err(e) => {
+                        found.push((*cfg, ("out-file".into(), "not-written".into(), json!({"error": e.to_string(), "run": res.json()}))));
+                        continue;
+                    }
+                }
+            } else {
+                res.stdout.clone()
+            };
+            match query {
+                Query::Amp(s) | Query::Exp(s) => {
+                    let exp = expected.unwrap();
+                    match text.trim().parse::<f64>() {
+                        Ok(v) if v.is_finite() => {
+                            observed.push((cfg.label(), json!(v)));
+                            let err = (v - exp).abs();
+                            if err > tol {
+                                let d = diagnose_value(query.task(), s, v, exp, &circ, &orc, &models, tol);
+                                let class = if query.task() == "-a" { "wrong-probability" } else { "wrong-expectation" };
+                                found.push((*cfg, (class.into(), d, json!({"observed": v, "expected": exp, "abs_error": err, "tolerance": tol}))));
+                            } else {
+                                c.count(&format!("answers_ok:{}", query.task()), 1);
+                                c.maximum(if exact { "max_value_error_clifford+t_x1e15" } else { "max_value_error_other_x1e12" }, (err * if exact { 1e15 } else { 1e12 }) as u64);
+                                if exp.abs() > 1e-6 && (exp.abs() - 1.0).abs() > 1e-6 {
+                                    c.count(&format!("answers_ok_fractional:{}", query.task()), 1);
+                                }
+                            }
+                        }
+                        _ => {
+                            observed.push((cfg.label(), json!(clip(&text))));
+                            found.push((*cfg, ("unparsable-answer".into(), String::new(), json!({"text": clip(&text), "run": res.json()}))));
+                        }
+                    }
+                }
+                Query::Shots(k) => {
+                    let k = k.unwrap_or(1);
+                    let tr = std::fs::read_to_string(&trace_p).ok();
+                    if tr.is_none() && k > 0 && n > 0 && !circ.gates.is_empty() {
+                        c.count("sampling_runs_without_trace", 1);
+                    }
+                    observed.push((cfg.label(), json!(clip(&text))));
+                    let ps = judge_shots(k, &text, tr.as_deref(), &circ, &orc, &models, tol);
+                    if ps.is_empty() {
+                        c.count("answers_ok:-s", 1);
+                    }
+                    for p in ps {
+                        found.push((*cfg, p));
+                    }
+                }
+            }
+        }
+        match query {
+            Query::Amp(s) => c.count(if s.len() == 1 && n > 1 { "queries:-a:broadcast" } else { "queries:-a:full" }, 1),
+            Query::Exp(s) => {
+                let kind = if s.len() == 1 && n > 1 { "broadcast" } else { "full" };
+                let case = if s.chars().any(|ch| ch.is_ascii_lowercase()) { "lower-or-mixed" } else { "upper" };
+                c.count(&format!("queries:-e:{kind}:{case}"), 1);
+            }
+            Query::Shots(None) => c.count("queries:-s:default-task", 1),
+            Query::Shots(Some(k)) => c.count(&format!("queries:-s:{}", if *k == 0 { "zero" } else { "k>=1" }), 1),
+        }
+        // group problems by (class, discriminator) and report with the config pattern
+        let mut groups: BTreeMap<(String, String), Vec<(Config, Value)>> = BTreeMap::new();
+        for (cfg, (class, disc, detail)) in found {
+            groups.entry((class, disc)).or_default().push((cfg, detail));
+        }
+        for ((class, disc), items) in groups {
+            let fcfgs: Vec<Config> = items.iter().map(|x| x.0).collect();
+            // which draws a sampling run makes is random, so the set of configurations that
+            // hit a draw/sample problem is not a property of the defect
+            let random_dependent = matches!(class.as_str(), "draw-probability" | "zero-probability-sample" | "trace-inconsistent-with-printed-sample");
+            // ... and whether a 64-bit mantissa happens to wrap depends on the exact float
+            // arithmetic of each method
+            let numeric_luck = disc.starts_with("off-by-power-of-two");
+            let cd = if random_dependent || numeric_luck { "any-config".to_string() } else { cfg_desc(&fcfgs, &run_cfgs) };
+            let sig = if circ.gates.is_empty() {
+                // every symptom on a program without gates has one cause: the qubit count is lost
+                format!("sim {}|zero-gate-circuit|qubit-count-lost", query.task())
+            } else {
+                format!("sim {}|{}|{}|{}", query.task(), class, disc, cd)
+            };
+            c.violation(
+                &sig,
+                family,
+                index,
+                json!({
+                    "what": format!("`quizx sim` answer for a valid query: {class}"),
+                    "circuit_label": label,
+                    "circuit": circ_json(&circ),
+                    "qasm": qasm,
+                    "query": query.text(),
+                    "expected": expected,
+                    "born_distribution": if n <= 3 { json!(orc.probs) } else { Value::Null },
+                    "failing_configs": items.iter().map(|(cf, d)| json!({"config": cf.label(), "detail": d})).collect::<Vec<_>>(),
+                    "all_observations": observed.iter().map(|(l, v)| json!({"config": l, "answer": v})).collect::<Vec<_>>(),
+                    "tolerance": tol,
+                }),
+            );
+        }
+    }
+    let _ = std::fs::remove_file(&file);
+    let _ = std::fs::remove_file(&trace_p);
+    let _ = std::fs::remove_file(&outfile_p);
+    let _ = std::fs::remove_file(stem.with_extension("out"));
+    let _ = std::fs::remove_file(stem.with_extension("err"));
+    c.evals(calls.saturating_sub(1));
+    let nontrivial = !aborted && !circ.gates.is_empty() && orc.support() >= 2;
+    c.case(family, if nontrivial { Some(circ_hash(&circ)) } else { None });
+    c.sample_n(6, || json!({"family": family, "index": index, "label": label, "circuit": circ_json(&circ), "support": orc.support(), "cli_calls": calls}));
+}
+
+// ------------------------------------------------------------------------------------
+// malformed queries
+// ------------------------------------------------------------------------------------
+
+const MALFORMED_CLASSES: [&str; 26] = [
+    "bits:bad-character",
+    "bits:wrong-length",
+    "bits:empty",
+    "pauli:bad-character",
+    "pauli:wrong-length",
+    "pauli:empty",
+    "file:missing",
+    "file:is-a-directory",
+    "file:name-not-utf8",
+    "two-tasks",
+    "two-methods",
+    "shots:not-a-count",
+    "parallel:not-a-count",
+    "flag:missing-value",
+    "flag:unknown",
+    "out-file:unwritable",
+    "qasm:syntax-error",
+    "qasm:undefined-gate",
+    "qasm:qubit-index-out-of-range",
+    "qasm:wrong-arity",
+    "qasm:conditional",
+    "qasm:barrier",
+    "qasm:reset",
+    "qasm:bare-unitary-U",
+    "qasm:empty-file",
+    "no-input-file",
+];
+
+fn malformed_case(env: &Env, index: u64, r: &mut Rng) {
+    let c = ctx();
+    let family = "malformed";
+    let class = MALFORMED_CLASSES[(index as usize) % MALFORMED_CLASSES.len()];
+    // a small valid circuit with >= 2 qubits (length 1 is always a valid broadcast)
+    let mut p = CircParams::unitary(4, 6, PhPool::Exact);
+    p.min_qubits = 2;
+    p.pp = false;
+    p.ccz = false;
+    let mut circ = gen_circuit(r, &p);
+    if circ.gates.is_empty() {
+        circ.gates.push(G::H(0));
+    }
+    let mut used = 0;
+    circ.gates.retain(|g| {
+        used += t_cost(g);
+        used <= 3
+    });
+    let n = circ.n;
+    let stem = env.dir.join(format!("{family}-{index}"));
+    let file = stem.with_extension("qasm");
+    let mut qasm = print_qasm(&circ);
+    let good_bits: String = (0..n).map(|_| if r.chance(0.5) { '1' } else { '0' }).collect();
+    let good_pauli = rand_pauli_string(r, n, 0.3);
+    let cfg = Config { method: r.below(3) as u8, par: r.below(3) as u8, out: false };
+    let mut input: OsString = file.clone().into();
+    let mut with_cfg = true;
+    // true when the query is in fact well-formed (then answering it is fine as well)
+    let mut may_succeed = false;
+    // task arguments
+    let task: Vec<OsString> = match class {
+        "bits:bad-character" => {
+            let bad = *r.pick(&["2", "x", "-", " ", "é", "０", "b", "O", "l", "+", ".", "\t"]);
+            let pos = r.below(n);
+            let s: String = good_bits.chars().enumerate().map(|(i, ch)| if i == pos { bad.to_string() } else { ch.to_string() }).collect();
+            vec!["-a".into(), s.into()]
+        }
+        "bits:wrong-length" => {
+            let len = loop {
+                let l = *r.pick(&[n + 1, n - 1, 2 * n, n + 7, 64, 65, 200]);
+                if l != n && l >= 2 {
+                    break l;
+                }
+            };
+            let s: String = (0..len).map(|_| if r.chance(0.5) { '1' } else { '0' }).collect();
+            vec!["-a".into(), s.into()]
+        }
+        "bits:empty" => vec!["-a".into(), "".into()],
+        "pauli:bad-character" => {
+            let bad = *r.pick(&["Q", "0", "1", "W", "+", "-", " ", "é", "Ｘ", "H", "j"]);
+            let pos = r.below(n);
+            let s: String = good_pauli.chars().enumerate().map(|(i, ch)| if i == pos { bad.to_string() } else { ch.to_string() }).collect();
+            vec!["-e".into(), s.into()]
+        }
+        "pauli:wrong-length" => {
+            let len = loop {
+                let l = *r.pick(&[n + 1, n - 1, 2 * n, n + 7, 64, 65, 200]);
+                if l != n && l >= 2 {
+                    break l;
+                }
+            };
+            vec!["-e".into(), rand_pauli_string(r, len, 0.3).into()]
+        }
+        "pauli:empty" => vec!["-e".into(), "".into()],
+        "file:missing" => {
+            input = env.dir.join(format!("does-not-exist-{index}.qasm")).into();
+            random_valid_task(r, &good_bits, &good_pauli)
+        }
+        "file:is-a-directory" => {
+            input = env.dir.clone().into();
+            random_valid_task(r, &good_bits, &good_pauli)
+        }
+        "file:name-not-utf8" => {
+            use std::os::unix::ffi::OsStringExt;
+            let mut bytes = env.dir.join(format!("nonutf8-{index}-")).into_os_string().into_vec();
+            bytes.extend_from_slice(&[0xff, 0xfe]);
+            bytes.extend_from_slice(b".qasm");
+            input = OsString::from_vec(bytes);
+            // half of the time the file exists: then the query is fine apart from the name of
+            // its file, and both an answer and a clean rejection are accepted (a panic is not)
+            if r.chance(0.5) {
+                may_succeed = std::fs::write(&input, &qasm).is_ok();
+            }
+            random_valid_task(r, &good_bits, &good_pauli)
+        }
+        "two-tasks" => {
+            let mut a: Vec<Vec<OsString>> = vec![
+                vec!["-a".into(), good_bits.clone().into()],
+                vec!["-e".into(), good_pauli.clone().into()],
+                vec!["-s".into(), "2".into()],
+            ];
+            let drop = r.below(4);
+            if drop < 3 {
+                a.remove(drop);
+            }
+            r.shuffle(&mut a);
+            a.into_iter().flatten().collect()
+        }
+        "two-methods" => {
+            with_cfg = false;
+            let mut a: Vec<OsString> = if r.chance(0.5) { vec!["--cats".into(), "--bss".into()] } else { vec!["--bss".into(), "--cats".into()] };
+            a.extend(random_valid_task(r, &good_bits, &good_pauli));
+            a
+        }
+        "shots:not-a-count" => {
+            let v = *r.pick(&["abc", "-1", "1.5", "", "1e3", "99999999999999999999999", "0x10", "٣"]);
+            vec!["-s".into(), v.into()]
+        }
+        "parallel:not-a-count" => {
+            with_cfg = false;
+            let v = *r.pick(&["x", "-2", "0.5", "", "99999999999999999999999"]);
+            let mut a: Vec<OsString> = vec!["--parallel".into(), v.into()];
+            a.extend(random_valid_task(r, &good_bits, &good_pauli));
+            a
+        }
+        "flag:missing-value" => {
+            let f = *r.pick(&["-a", "-e", "-s", "--parallel", "-o"]);
+            vec![f.into()]
+        }
+        "flag:unknown" => {
+            let f = *r.pick(&["--foo", "-z", "--amplitudes", "--shot", "-A"]);
+            let mut a = random_valid_task(r, &good_bits, &good_pauli);
+            a.push(f.into());
+            a
+        }
+        "out-file:unwritable" => {
+            let mut a = random_valid_task(r, &good_bits, &good_pauli);
+            a.push("-o".into());
+            a.push(env.dir.join("no-such-dir").join("x.txt").into());
+            a
+        }
+        "qasm:syntax-error" => {
+            qasm = match r.below(4) {
+                0 => qasm.replacen(";\nqreg", "\nqreg", 1),
+                1 => format!("{qasm}h q[0"),
+                2 => format!("{qasm}@@@ garbage ###;\n"),
+                _ => qasm.replace("OPENQASM 2.0;", "OPENQASM ;"),
+            };
+            random_valid_task(r, &good_bits, &good_pauli)
+        }
+        "qasm:undefined-gate" => {
+            let gname = *r.pick(&["foo q[0];", "pp(1*pi/4) q[0], q[1];", "u3(0,0,0) q[0];", "y q[0];"]);
+            qasm += gname;
+            qasm += "\n";
+            random_valid_task(r, &good_bits, &good_pauli)
+        }
+        "qasm:qubit-index-out-of-range" => {
+            qasm += &format!("h q[{}];\n", n + r.below(3));
+            random_valid_task(r, &good_bits, &good_pauli)
+        }
+        "qasm:wrong-arity" => {
+            qasm += *r.pick(&["cx q[0];\n", "h q[0], q[1];\n", "rz q[0];\n", "t(1*pi/4) q[0];\n"]);
+            random_valid_task(r, &good_bits, &good_pauli)
+        }
+        "qasm:conditional" => {
+            qasm += "creg c[1];\nif(c==1) x q[0];\n";
+            random_valid_task(r, &good_bits, &good_pauli)
+        }
+        "qasm:barrier" => {
+            qasm += "barrier q[0];\n";
+            random_valid_task(r, &good_bits, &good_pauli)
+        }
+        "qasm:reset" => {
+            qasm += "reset q[0];\n";
+            random_valid_task(r, &good_bits, &good_pauli)
+        }
+        "qasm:bare-unitary-U" => {
+            qasm += "U(0,0,0) q[0];\n";
+            random_valid_task(r, &good_bits, &good_pauli)
+        }
+        "qasm:empty-file" => {
+            qasm = String::new();
+            // full-length strings only: a file without any register cannot match them
+            if r.chance(0.5) {
+                vec!["-a".into(), good_bits.clone().into()]
+            } else {
+                vec!["-e".into(), good_pauli.clone().into()]
+            }
+        }
+        "no-input-file" => {
+            input = OsString::new();
+            random_valid_task(r, &good_bits, &good_pauli)
+        }
+        _ => unreachable!(),
+    };
+    if let Err(e) = std::fs::write(&file, &qasm) {
+        c.harness_error(&format!("C06: cannot write {}: {e}", file.display()));
+        return;
+    }
+    let mut args: Vec<OsString> = vec!["sim".into()];
+    if class != "no-input-file" {
+        args.push(input.clone());
+    }
+    if with_cfg {
+        args.extend(cfg.args());
+    }
+    args.extend(task);
+    let res = run_cli(env, &args, None, &stem);
+    c.count(&format!("malformed:{class}"), 1);
+    if let Some(e) = &res.spawn_err {
+        c.harness_error(&format!("C06: cannot run the CLI: {e}"));
+        return;
+    }
+    let shown: Vec<String> = args.iter().map(|a| a.to_string_lossy().into_owned()).collect();
+    let detail = |what: &str| {
+        json!({"what": what, "class": class, "args": shown, "qasm": qasm, "circuit_qubits": n, "run": res.json(),
+               "expected": "exit code 1 or 2, a message on stderr, no panic"})
+    };
+    if res.timed_out {
+        c.inconclusive("cli-timeout", detail("timeout"));
+    } else if res.panicked() {
+        c.violation(&format!("sim malformed|{class}|panic|{}", res.panic_site()), family, index, detail("malformed query made the CLI panic"));
+    } else {
+        match res.code {
+            None => c.violation(&format!("sim malformed|{class}|crash|killed-by-signal"), family, index, detail("malformed query crashed the CLI")),
+            Some(0) if may_succeed => c.count(&format!("odd-but-valid-query-answered:{class}"), 1),
+            Some(0) => c.violation(&format!("sim malformed|{class}|accepted|exit 0"), family, index, detail("malformed query was accepted (exit code 0)")),
+            Some(code @ (1 | 2)) => {
+                c.count(&format!("malformed_exit_code:{code}"), 1);
+                if res.stderr.trim().is_empty() {
+                    c.violation(&format!("sim malformed|{class}|no-message-on-stderr|exit {code}"), family, index, detail("rejected without any message on stderr"));
+                } else {
+                    c.count("malformed_rejected_with_message", 1);
+                }
+            }
+            Some(code) => c.violation(&format!("sim malformed|{class}|unexpected-exit-code|exit {code}"), family, index, detail("exit code is neither 1 nor 2")),
+        }
+    }
+    let _ = std::fs::remove_file(&file);
+    if class == "file:name-not-utf8" {
+        let _ = std::fs::remove_file(&input);
+    }
+    let _ = std::fs::remove_file(stem.with_extension("out"));
+    let _ = std::fs::remove_file(stem.with_extension("err"));
+    c.case(family, None);
+    c.sample_n(8, || json!({"family": family, "index": index, "class": class, "args": shown, "exit_code": res.code, "stderr": clip(&res.stderr)}));
+}
+
+fn random_valid_task(r: &mut Rng, bits: &str, pauli: &str) -> Vec<OsString> {
+    match r.below(4) {
+        0 => vec!["-a".into(), bits.into()],
+        1 => vec!["-e".into(), pauli.into()],
+        2 => vec!["-s".into(), "2".into()],
+        _ => vec![],
+    }
+}
+
+// ------------------------------------------------------------------------------------
+// entry point
+// ------------------------------------------------------------------------------------
 
 pub fn run() {
-    ctx().harness_error("C06 monitor not implemented yet");
+    let c = ctx();
+    if let Err(e) = self_test() {
+        c.harness_error(&format!("C06 oracle helper self-test failed: {e}"));
+        return;
+    }
+    let Some(cli) = std::env::var_os("QVMON_CLI") else {
+        c.harness_error("C06: environment variable QVMON_CLI (path of the quizx binary built with --features verif) is not set");
+        return;
+    };
+    if !Path::new(&cli).is_file() {
+        c.harness_error(&format!("C06: QVMON_CLI={} is not a file", Path::new(&cli).display()));
+        return;
+    }
+    let dir = PathBuf::from(format!("/verif/harness/target/tmp/c06-{}", std::process::id()));
+    if let Err(e) = std::fs::create_dir_all(&dir) {
+        c.harness_error(&format!("C06: cannot create {}: {e}", dir.display()));
+        return;
+    }
+    let env = Arc::new(Env { cli, dir: dir.clone() });
+
+    // smoke test: the binary runs, answers a trivial query, and has hook H4
+    {
+        let bell = Circ { n: 2, gates: vec![G::H(0), G::Cx(0, 1)] };
+        let stem = dir.join("smoke");
+        let file = stem.with_extension("qasm");
+        let _ = std::fs::write(&file, print_qasm(&bell));
+        let tr = stem.with_extension("trace");
+        let res = run_cli(&env, &["sim".into(), file.clone().into(), "-s".into(), "1".into()], Some(&tr), &stem);
+        let trace_ok = std::fs::read_to_string(&tr).map(|t| parse_trace(&t).map(|d| d.len() == 2).unwrap_or(false)).unwrap_or(false);
+        if res.spawn_err.is_some() || res.code != Some(0) {
+            c.harness_error(&format!("C06: smoke run of the CLI failed: {:?}", res));
+            let _ = std::fs::remove_dir_all(&dir);
+            return;
+        }
+        if !trace_ok {
+            c.harness_error("C06: the CLI did not write the H4 trace (QUIZX_VERIF_TRACE); was it built with --features verif?");
+            let _ = std::fs::remove_dir_all(&dir);
+            return;
+        }
+    }
+
+    c.set_rule(
+        "cases = generated circuits (families clifford+t, other-phases, special) each queried through the real `quizx sim` binary: 5 amplitude, 8 expectation and 1-2 sampling queries x {default,--cats,--bss} x {no flag,--parallel 1,--parallel 4} (+ one -o run); evaluations = CLI invocations; a circuit is non-trivial when it has >= 1 gate and its output distribution has >= 2 outcomes of non-zero probability (so some conditional is not 0/1); distinct = distinct circuits (64-bit hash). Family `malformed` = one rejected-query check per case (never counted as non-trivial).",
+    );
+    c.assume("independent gate-matrix simulator O3 (harness/src/oracle/sim.rs, f64 state vector) is correct (self-tested; Pauli/conditional helpers self-tested here)");
+    c.assume("a probability <= 1e-9 counts as zero for the non-zero-probability clause; tolerances 1e-9 (all phases multiples of pi/4) and 1e-6 (other phases)");
+    c.assume("hook H4 (QUIZX_VERIF_TRACE) reports exactly the probability handed to each Bernoulli draw");
+    c.assume("supported gate set = gates the QASM front end declares (no `pp`); rz/rx are taken up to global phase, which none of the three query kinds can see");
+
+    let t = c.tier;
+    let (nq, depth) = t.pick((4usize, 14usize), (5usize, 22usize));
+    let (n_exact, n_float, n_special, n_mal) = t.pick((160usize, 80usize, 54usize, 312usize), (2400usize, 1200usize, 360usize, 3120usize));
+
+    {
+        let env = env.clone();
+        par_cases("clifford+t", n_exact, move |r, i| {
+            let circ = gen_c06(r, PhPool::Exact, nq, depth);
+            circuit_case(&env, "clifford+t", i, r, circ, "generated");
+        });
+    }
+    {
+        let env = env.clone();
+        par_cases("other-phases", n_float, move |r, i| {
+            let mut circ = gen_c06(r, PhPool::Float, nq, depth.min(12));
+            // turn some diagonal gates into rotations by other angles so that circuits with
+            // several non-pi/4 phases are common
+            for g in circ.gates.iter_mut() {
+                let q = match g {
+                    G::T(q) | G::Tdg(q) | G::S(q) | G::Z(q) => *q,
+                    _ => continue,
+                };
+                if r.chance(0.35) {
+                    let d = *r.pick(&[3i64, 5, 7, 8, 16, 12, 32]);
+                    let k = r.range(1, 2 * d - 1);
+                    let ph = crate::gen::circuit::gen_ph(r, PhPool::Float);
+                    let ph = if 4 % ph.1 == 0 { (k, d) } else { ph };
+                    *g = if r.chance(0.7) { G::Rz(q, ph) } else { G::Rx(q, ph) };
+                }
+            }
+            {
+                let mut used = 0;
+                circ.gates.retain(|g| {
+                    used += t_cost(g);
+                    used <= 9
+                });
+            }
+            if circ.is_pi4() {
+                // make sure the family really contains a phase that is not a multiple of pi/4
+                let q = r.below(circ.n);
+                let d = *r.pick(&[3i64, 5, 7, 8, 16, 12, 32]);
+                let k = 2 * r.range(0, d - 1) + 1;
+                let k = if d % 2 == 0 { k } else { r.range(1, d - 1) };
+                let g = if r.chance(0.5) { G::Rz(q, (k, d)) } else { G::Rx(q, (k, d)) };
+                let pos = r.below(circ.gates.len() + 1);
+                circ.gates.insert(pos, g);
+                // keep the non-Clifford budget
+                let mut used = 0;
+                circ.gates.retain(|g| {
+                    used += t_cost(g);
+                    used <= 9
+                });
+            }
+            circuit_case(&env, "other-phases", i, r, circ, "generated");
+        });
+    }
+    {
+        let env = env.clone();
+        par_cases("special", n_special, move |r, i| {
+            let sp = special_circuits();
+            let (label, circ) = sp[(i as usize) % sp.len()].clone();
+            circuit_case(&env, "special", i, r, circ, label);
+        });
+    }
+    {
+        let env = env.clone();
+        par_cases("malformed", n_mal, move |r, i| {
+            malformed_case(&env, i, r);
+        });
+    }
+    c.extra("exhaustive", json!(false));
+    c.extra("cli", json!(env.cli.to_string_lossy()));
+    let _ = std::fs::remove_dir_all(&dir);
 }
